@@ -70,6 +70,13 @@ NATIVE = [
     ("[String; 2]", [("vec", "text")], {}, ("array", {0: 2})),
     ("([u8; 2], Vec<u8>)", [("vec", "nat8"), ("vec", "nat8")], {}, ("array", {0: 2})),
     ("([i32; 3], Option<[bool; 1]>)", [("vec", "int32"), ("opt", ("vec", "bool"))], {}, ("array", {0: 3})),
+    ("BTreeSet<i64>", [("vec", "int64")], {}, "set"),
+    ("VecDeque<Option<bool>>", [("vec", ("opt", "bool"))], {}, None),
+    ("Box<Option<u8>>", [("opt", "nat8")], {}, None),
+    ("V3 { N(Option<V1>), S { list: Vec<u8>, t: (u8, u8) } }",
+     [var(("N", ("opt", var(("A", "null"), ("B", "int16"), ("C", rec(("x", ("opt", "nat8"))))))),
+          ("S", rec(("list", ("vec", "nat8")), ("t", rec((0, "nat8"), (1, "nat8"))))))], {}, None),
+    ("Result<u8, Empty>", [var(("Ok", "nat8"), ("Err", "empty"))], {}, None),
 ]
 
 
@@ -143,7 +150,10 @@ def gen_val(rnd, t, env, depth=0):
         return [gen_val(rnd, t[1], env, depth + 1) for _ in range(rnd.choice([0, 1, 2, 3, 4, 5]))]
     if t[0] == "record":
         return [(i, gen_val(rnd, x, env, depth + 1)) for i, x in t[1]]
-    i, x = rnd.choice(t[1])
+    inhabited = [f for f in t[1] if f[1] != "empty"]                      # the empty type has no values
+    if not inhabited:
+        raise ValueError("no value of this variant type")
+    i, x = rnd.choice(inhabited)
     return ("variant", i, gen_val(rnd, x, env, depth + 1))
 
 
@@ -223,8 +233,8 @@ def run(pid, build_replay):
                 tys = tys + [gen_type(rnd, 2)]                       # surplus argument: dropped
             elif c < 0.18 and tys:
                 tys = tys[:-1]                                       # missing argument: null if the type allows it
-            vals = [gen_val(rnd, t, env) for t in tys]
             try:
+                vals = [gen_val(rnd, t, env) for t in tys]
                 msg = Enc(env).message(tys, vals)
             except (KeyError, ValueError, IndexError):
                 continue
@@ -232,6 +242,8 @@ def run(pid, build_replay):
             want = coerce_args(vals, tys, exps)
             if want is not FAIL and norm == "map":
                 want = [map_normal_form(want[0])]
+            if want is not FAIL and norm == "set":
+                want = [sorted(set(want[0]))]                        # a decoded set re-encodes sorted, duplicates gone
             if want is not FAIL and isinstance(norm, tuple) and norm[0] == "array":
                 if any(len(want[j]) != n for j, n in norm[1].items()):
                     want = FAIL                                      # host limit: the array holds exactly N elements
@@ -251,6 +263,18 @@ def run(pid, build_replay):
         ENVS["w"], ENVS["e"] = env, env
         want = coerce_args(vals, tys, exps)
         if want is not FAIL and isinstance(norm, tuple) and any(len(want[j]) != n for j, n in norm[1].items()):
+            want = FAIL
+        cases.append((f"nt {k} {msg.hex()}", rust, tys, vals, exps, want, env, norm))
+    # the documented host limit of (u128, i128): values outside the 128-bit range are an error, values inside are exact
+    for n, i, wire_i in [(2 ** 128 - 1, -2 ** 127, "int"), (2 ** 128, 0, "int"), (0, 2 ** 127, "int"), (0, 2 ** 127 - 1, "int"),
+                         (0, 2 ** 127 - 1, "nat"), (0, 2 ** 127, "nat"), (2 ** 200, 0, "int"), (0, -2 ** 127 - 1, "int")]:
+        k = 10
+        rust, exps, env, norm = NATIVE[k]
+        tys, vals = ["nat", wire_i], [n, i]
+        msg = Enc(env).message(tys, vals)
+        ENVS["w"], ENVS["e"] = env, env
+        want = coerce_args(vals, tys, exps)
+        if not (0 <= n < 2 ** 128 and -2 ** 127 <= i < 2 ** 127):
             want = FAIL
         cases.append((f"nt {k} {msg.hex()}", rust, tys, vals, exps, want, env, norm))
     p = subprocess.run([exe], input="\n".join(c[0] for c in cases) + "\n", capture_output=True, text=True, timeout=1800)
